@@ -132,3 +132,97 @@ register(Contract(
     raises=[Raises("KeyError", when=f"initial_line_number not in {PL}")],
     modifies=[f"{PL}.$dict", "self._MarkdownToken__extra_data"],
 ))
+
+# ---------------------------------------------------------------------------------------------------------------
+# Conflicting requests are refused, never silently resolved: a replacement whose token range touches a token that another rule
+# edits or replaces raises BadPluginFixError; otherwise exactly the range is marked as replaced by this rule.
+_R["$fields"].types.update({"FixTokenRecord.token_to_fix": "MarkdownToken", "FixTokenRecord.plugin_id": "str", "FixTokenRecord.plugin_action": "str",
+                            "FixTokenRecord.field_name": "str", "FixTokenRecord.field_value": "Any"})
+FI = "fixed_token_indices"
+RI = "replaced_token_indices"
+INDEX2 = Assumed("list.index[traced]", params=["x"], returns="int", pure=True, raises=[Raises("ValueError")],
+                 ensures=["0 <= result < len(self)", "self[result] is x", "forall(lambda k: self[k] is not x, 0, result)"],
+                 effects=["g_idx.append(result)"], why=INDEX.why)
+CLASH = f"exists(lambda i: old(i in {FI}) or old(i in {RI}), g_idx[0], g_idx[1] + 1)"
+register(Contract(
+    key=FSH + "__look_for_collisions", properties=P,
+    ghost={"g_idx": "List[int]"},
+    calls={"actual_tokens.index": INDEX2},
+    types={"fixed_token_indices": "Dict[int, List[str]]", "replaced_token_indices": "Dict[int, str]"},
+    requires=["len(g_idx) == 0", f"{FI} is not {RI}"],
+    ensures=[
+        "len(g_idx) == 2",
+        # returning normally means: nothing in the range was edited or replaced before ...
+        f"forall(lambda i: not old(i in {FI}) and not old(i in {RI}), g_idx[0], g_idx[1] + 1)",
+        # ... and now exactly the range is recorded as replaced by this rule
+        f"forall(lambda i: i in {RI} and {RI}[i] is next_replacement.plugin_id, g_idx[0], g_idx[1] + 1)",
+        f"forall(lambda i: implies(i < g_idx[0] or i > g_idx[1], (i in {RI}) == old(i in {RI})))",
+    ],
+    raises=[Raises("BadPluginFixError"), Raises("ValueError")],
+    xensures={"BadPluginFixError": [f"len(g_idx) == 2 and {CLASH}"]},       # a refusal always has a cause: some index of the range is taken
+    modifies=[f"{RI}.$dict", "g_idx.$list"],
+    loops={0: Loop(index="idx", invariant=[
+        f"forall(lambda i: not old(i in {FI}), start_index, end_index + 1)",
+        f"forall(lambda i: not old(i in {RI}) and i in {RI} and {RI}[i] is next_replacement.plugin_id, start_index, start_index + idx)",
+        f"forall(lambda i: implies(i < start_index or i >= start_index + idx, (i in {RI}) == old(i in {RI})))",
+        "len(g_idx) == 2 and g_idx[0] == start_index and g_idx[1] == end_index",
+    ])},
+))
+
+# Every requested edit of a token is applied exactly once, in the order requested, through MarkdownToken.modify_token; an edit the
+# token refuses (unknown field, ill-typed value: see the _modify_token obligations) aborts the fix with BadPluginFixError -- no
+# request is dropped silently.
+MODTOK = Assumed(MT + "modify_token[traced]", params=["context", "field_name", "field_value"], returns="bool", modifies=["$token_state"],
+                 raises=[Raises("BadPluginFixError")], effects=["g_mod.append((self, field_name, field_value, result))"],
+                 why="MarkdownToken.modify_token -> _modify_token (structural obligations C08::modify_token[...]); ghost g_mod records the call and its verdict")
+DEEPCOPY = Assumed("copy.deepcopy", params=["x"], returns="Any", pure=True, fresh_result=True, why="debug copy of the token (only printed)")
+RQ = "requested_fixes"
+register(Contract(
+    key=FSH + "__apply_token_fix", properties=P,
+    ghost={"g_mod": "List[Any]"},
+    calls={"token_instance.modify_token": MODTOK, "copy.deepcopy": DEEPCOPY},
+    requires=["len(g_mod) == 0"],
+    ensures=[f"len(g_mod) == len({RQ})",
+             f"forall(lambda k: g_mod[k][0] is token_instance and g_mod[k][1] is {RQ}[k].field_name and g_mod[k][2] is {RQ}[k].field_value and g_mod[k][3], 0, len({RQ}))"],
+    raises=[Raises("BadPluginFixError")],
+    modifies=["$token_state", "g_mod.$list"],
+    loops={0: Loop(index="idx", invariant=["len(g_mod) == 0", "fix_map is not requested_fixes"]),
+           1: Loop(index="idx", invariant=["len(g_mod) == idx",
+                                           f"forall(lambda k: g_mod[k][0] is token_instance and g_mod[k][1] is {RQ}[k].field_name and g_mod[k][2] is {RQ}[k].field_value and g_mod[k][3], 0, idx)"])},
+))
+
+# All replacements are checked for conflicts BEFORE the first one is applied (a conflict leaves the token list untouched), then every
+# one is applied exactly once, in the order requested.
+RL = "replace_tokens_list"
+LFC = Assumed(FSH + "__look_for_collisions[traced]", params=["next_replacement", "actual_tokens", "fixed_token_indices", "replaced_token_indices"],
+              modifies=["replaced_token_indices.$dict"], raises=[Raises("BadPluginFixError"), Raises("ValueError")],
+              effects=["g_steps.append(('check', next_replacement))"], why="FileScanHelper.__look_for_collisions (own contract above)")
+ARF = Assumed(FSH + "__apply_replacement_fix[traced]", params=["context", "next_replacement", "actual_tokens"],
+              modifies=["actual_tokens.$list", "_MarkdownToken__line_number", "$ddom", "$dval", "$dlen", "_MarkdownToken__extra_data"],
+              raises=[Raises("ValueError"), Raises("BadPluginFixError"), Raises("IndexError"), Raises("KeyError")],
+              effects=["g_steps.append(('apply', next_replacement))"], why="FileScanHelper.__apply_replacement_fix (own contract above)")
+MKV = Assumed("ParserHelper.make_value_visible", returns="str", pure=True, why="debug rendering (only under -x-fix-debug)")
+N = f"len({RL})"
+register(Contract(
+    key=FSH + "__apply_replacements", properties=P,
+    ghost={"g_steps": "List[Any]"},
+    calls={"self.__look_for_collisions": LFC, "self.__apply_replacement_fix": ARF, "ParserHelper.make_value_visible": MKV},
+    requires=["len(g_steps) == 0", f"{RL} is not actual_tokens"],
+    ensures=[f"result == (did_any_tokens_get_fixed or {N} > 0)",
+             f"len(g_steps) == 2 * {N}",
+             f"forall(lambda k: g_steps[k] == ('check', {RL}[k]), 0, {N})",
+             f"forall(lambda k: g_steps[k] == ('apply', {RL}[k - {N}]), {N}, 2 * {N})"],
+    # a conflict is found before anything was applied
+    xensures={"BadPluginFixError": [f"forall(lambda k: implies(g_steps[k][0] == 'apply', k >= {N}), 0, len(g_steps))"]},
+    raises=[Raises("BadPluginFixError"), Raises("ValueError"), Raises("IndexError"), Raises("KeyError")],
+    modifies=["actual_tokens.$list", "replaced_token_indices.$dict", "_MarkdownToken__line_number", "$ddom", "$dval", "$dlen", "$llen", "$litems",
+              "_MarkdownToken__extra_data", "g_steps.$list"],
+    loops={0: Loop(index="idx", invariant=["len(g_steps) == idx", f"forall(lambda k: g_steps[k] == ('check', {RL}[k]), 0, idx)",
+                                           f"len({RL}) == old(len({RL}))", f"forall(lambda k: {RL}[k] is old({RL}[k]), 0, {N})"]),
+           1: Loop(invariant=[f"len(g_steps) == {N}", f"forall(lambda k: g_steps[k] == ('check', {RL}[k]), 0, {N})"]),
+           2: Loop(index="idx", invariant=[f"len(g_steps) == {N} + idx", f"forall(lambda k: g_steps[k] == ('check', {RL}[k]), 0, {N})",
+                                           f"forall(lambda k: g_steps[k] == ('apply', {RL}[k - {N}]), {N}, {N} + idx)",
+                                           f"did_any_tokens_get_fixed == (old(did_any_tokens_get_fixed) or idx > 0)",
+                                           f"len({RL}) == old(len({RL}))", f"forall(lambda k: {RL}[k] is old({RL}[k]), 0, {N})"]),
+           3: Loop(invariant=[f"len(g_steps) == 2 * {N}"])},
+))
